@@ -18,7 +18,7 @@ READER = os.path.join(VERIF, "build", "reader")
 sys.path.insert(0, os.path.join(VERIF, "refpy"))
 
 KINDS = ("bloom", "cbloom", "cms-min", "cms-mean", "cms-meanmin", "expanding", "rotating", "cuckoo", "ccuckoo", "ondisk")
-RATES = (0.5, 0.3, 0.2, 0.1, 0.05, 0.01, 0.001, 1e-05)
+RATES = (0.5, 0.3, 0.2, 0.1, 0.05, 0.01, 0.001, 1e-05, 1e-09, 1e-12, 1e-15)
 
 
 def ensure_reader():
@@ -49,7 +49,8 @@ class C06Layout(Scenario):
         kind = rng.choice(KINDS)
         cfg = {"kind": kind, "steps": rng.between(2, self.max_steps), "universe": rng.choice((4, 10, 25, 60))}
         if kind.startswith("cms"):
-            cfg.update({"width": rng.choice((2, 3, 5, 8, 50, 200)), "depth": rng.between(1, 6), "free_removes": rng.chance(1, 2)})
+            cfg.update({"width": rng.choice((2, 3, 5, 8, 50, 200)), "depth": rng.between(1, 6) if rng.chance(5, 6) else rng.choice((17, 33, 40)),
+                        "free_removes": rng.chance(1, 2)})
         elif kind in ("cuckoo", "ccuckoo"):
             cfg.update({"capacity": rng.choice((2, 3, 5, 8, 20)), "bucket_size": rng.choice((1, 2, 3, 4, 4, 9, 12)),
                         "max_swaps": rng.choice((2, 5, 20, 100)), "finger_size": rng.choice((1, 2, 4)),
